@@ -192,7 +192,7 @@ int main(int argc, char ** argv) {
         long n = std::atol(argv[3]);
         std::ofstream out(argv[4]);
         long events = 0;
-        const std::size_t mx = N == 1 ? 5000 : (N == 2 ? 90 : (N == 3 ? 24 : 20));
+        const std::size_t mx = N == 1 ? 80000 : (N == 2 ? 90 : (N == 3 ? 24 : 20));   // (1-D: beyond 2^16 cells)
         for (long q = 0; q < n; ++q) {
             coord e(N); for (auto & x : e) x = 1 + r.below(mx);
             grid g = make_grid(e);
